@@ -1909,6 +1909,11 @@ func (m *Model) applyPullWaitPub(c Call, o Obs) []Hit {
 			hits = append(hits, hitOn(c.Op.Sub, "wake-late", []string{"C10"}, "a Pull on %s that was waiting when a message was published to it (%v after the pull started) returned only %v after that publish committed", c.Op.Sub, o.PubT1.Sub(o.T0), o.T1.Sub(o.PubT1)))
 		}
 	}
+	// a long poll that finds nothing ends when its maximum wait (59 s), counted from
+	// its START, is over - however often it was woken without anything to deliver
+	if o.Err == "" && len(o.Msgs) == 0 && o.T1.Sub(o.T0) > 61*time.Second {
+		hits = append(hits, hitOn(c.Op.Sub, "pull-overstays", []string{"C10"}, "an empty Pull on %s lasted %v (maximum wait 59s); it was woken %v after its start by a publish that made nothing deliverable", c.Op.Sub, o.T1.Sub(o.T0), o.PubT1.Sub(o.T0)))
+	}
 	return hits
 }
 
